@@ -194,6 +194,9 @@ type Engine struct {
 	secs     float64
 	sitePos  map[string]string
 	softs    []string
+	ncover   int
+	covers   map[string][][]string
+	stableMode bool
 	poolCall *ssa.Function
 	heapIDs  map[string]int
 	visibilityFrames map[string]bool
@@ -798,6 +801,16 @@ func (e *Engine) step(st *State) (succ []*State, cont bool) {
 		var rs []Val
 		for _, r := range x.Results {
 			rs = append(rs, e.get(st, r))
+		}
+		if len(st.frames) == 1 {
+			// vacuity guard: remember the path conditions reaching each return of the function
+			key := posString(e.P.prog.Fset, e.posOf(fr, nil))
+			if e.covers == nil {
+				e.covers = map[string][][]string{}
+			}
+			if len(e.covers[key]) < 400 {
+				e.covers[key] = append(e.covers[key], append([]string{}, st.pc...))
+			}
 		}
 		return e.doReturn(st, rs), false
 	case *ssa.Panic:
